@@ -134,6 +134,10 @@ pub fn hh(pre: [u64; 4]) -> [u64; 4] {
 pub struct Emb {
     pub dig: BTreeMap<u64, [u64; 4]>,
     pub pre: BTreeMap<u64, [u64; 4]>,
+    /// digests for the EQUALITY-ONLY roles (exit accounts, block hashes): as `dig`, except that value 1 is a non-zero digest
+    /// whose limbs sum to 0 mod p and value 3 has the same limb sum as value 2 - what survives when a per-limb comparison
+    /// is folded into one comparison of limb sums (seeded C13 / C03, second round)
+    pub eq: BTreeMap<u64, [u64; 4]>,
 }
 
 pub fn make_emb(seed: u64) -> Emb {
@@ -165,7 +169,11 @@ pub fn make_emb(seed: u64) -> Emb {
         for v in 4..9u64 {
             dig.insert(v, [h2[0] + 1 + (v - 3) * ((h9[0] - h2[0] - 1) / 8), rng.gen::<u64>() % P, 0, P - 1]);
         }
-        return Emb { dig, pre };
+        let mut eq = dig.clone();
+        eq.insert(1, [P - 1, 1, 0, 0]);
+        let delta = 1 + rng.gen::<u64>() % (1 << 40);
+        eq.insert(3, [((h2[0] as u128 + delta as u128) % P as u128) as u64, ((h2[1] as u128 + P as u128 - delta as u128) % P as u128) as u64, h2[2], h2[3]]);
+        return Emb { dig, pre, eq };
     }
 }
 
@@ -194,9 +202,9 @@ fn child_vec(c: &Value, emb: &Emb, mode: u64) -> Vec<u64> {
     let g = |k: &str| c[k].as_u64().unwrap();
     let mut v = vec![scal("asset", g("asset"), mode), g("out1") * AMT_UNIT, g("out2") * AMT_UNIT, scal("fee", g("fee"), mode)];
     v.extend(emb.dig[&g("null")]);
-    v.extend(emb.dig[&g("exit1")]);
-    v.extend(emb.dig[&g("exit2")]);
-    v.extend(emb.dig[&g("block")]);
+    v.extend(emb.eq[&g("exit1")]);
+    v.extend(emb.eq[&g("exit2")]);
+    v.extend(emb.eq[&g("block")]);
     v.push(scal("number", g("number"), mode));
     v
 }
@@ -278,7 +286,8 @@ pub fn pb_replay(inp: &str, outp: &str, seed: u64) -> Result<()> {
         .collect();
     let mut fo = fs::File::create(outp)?;
     let digs: BTreeMap<String, Vec<u64>> = emb.dig.iter().map(|(k, v)| (k.to_string(), v.to_vec())).collect();
-    writeln!(fo, "{}", json!({"emb": {"dig": digs, "amt_unit": AMT_UNIT, "scal": scal_table()}}))?;
+    let eqs: BTreeMap<String, Vec<u64>> = emb.eq.iter().map(|(k, v)| (k.to_string(), v.to_vec())).collect();
+    writeln!(fo, "{}", json!({"emb": {"dig": digs, "eq": eqs, "amt_unit": AMT_UNIT, "scal": scal_table()}}))?;
     for r in rows {
         writeln!(fo, "{}", r)?;
     }
@@ -289,11 +298,11 @@ fn inner_vec(b: &Value, n: usize, emb: &Emb, junk: u64, mode: u64) -> Vec<u64> {
     let g = |k: &str| b[k].as_u64().unwrap();
     // header: [nslots, asset, fee, block(4), number]; nslots and padding are not read by the public batch
     let mut v = vec![if junk % 2 == 0 { 2 * n as u64 } else { 999 }, scal("asset", g("asset"), mode), scal("fee", g("fee"), mode)];
-    v.extend(emb.dig[&g("block")]);
+    v.extend(emb.eq[&g("block")]);
     v.push(scal("number", g("number"), mode));
     for s in b["slots"].as_array().unwrap() {
         v.push(s[0].as_u64().unwrap() * AMT_UNIT);
-        v.extend(emb.dig[&s[1].as_u64().unwrap()]);
+        v.extend(emb.eq[&s[1].as_u64().unwrap()]);
     }
     for x in b["nulls"].as_array().unwrap() {
         v.extend(emb.dig[&x.as_u64().unwrap()]);
@@ -333,7 +342,8 @@ pub fn qb_replay(inp: &str, outp: &str, seed: u64) -> Result<()> {
         .collect();
     let mut fo = fs::File::create(outp)?;
     let digs: BTreeMap<String, Vec<u64>> = emb.dig.iter().map(|(k, v)| (k.to_string(), v.to_vec())).collect();
-    writeln!(fo, "{}", json!({"emb": {"dig": digs, "amt_unit": AMT_UNIT, "scal": scal_table()}}))?;
+    let eqs: BTreeMap<String, Vec<u64>> = emb.eq.iter().map(|(k, v)| (k.to_string(), v.to_vec())).collect();
+    writeln!(fo, "{}", json!({"emb": {"dig": digs, "eq": eqs, "amt_unit": AMT_UNIT, "scal": scal_table()}}))?;
     for r in rows {
         writeln!(fo, "{}", r)?;
     }
